@@ -129,7 +129,8 @@ class Contract:
     def __init__(self, target, prop, params, requires=(), ensures=(), raises=None,
                  returns=None, modular=(), name=None, closure_env=None,
                  decreases=None, invariants=None, notes='', bound_args=None,
-                 klass='PROVED', frame=None, when=None):
+                 klass='PROVED', frame=None, when=None, free_vars=(),
+                 native_call=None):
         self.target = target
         self.prop = prop
         self.params = params
@@ -147,6 +148,8 @@ class Contract:
         self.klass = klass
         self.frame = frame
         self.when = when
+        self.free_vars = tuple(free_vars)
+        self.native_call = native_call
 
 
 class Lemma:
